@@ -25,6 +25,9 @@ type WParams struct {
 type WObs struct {
 	Env *Env
 	Ws  []*Writer
+	// Idle0 is the value of the private sender-ownership flag right after the channel was
+	// created (nobody sending): the representation-independent meaning of "at rest".
+	Idle0 int32
 }
 
 func (p WParams) name() string {
@@ -59,6 +62,7 @@ func WriteScenario(p WParams, check func(x *vsched.Exec, o *WObs) []explore.Find
 		Body: func(v any) {
 			o := v.(*WObs)
 			o.Env = NewEnv(p.Cfg, nil)
+			o.Idle0, _, _, _ = netty.VerifChannelState(o.Env.Ch)
 			id := 1
 			for i, eps := range p.Writers {
 				w := &Writer{Name: fmt.Sprintf("w%d", i+1)}
@@ -197,7 +201,7 @@ func CheckQuiescent(x *vsched.Exec, o *WObs) []explore.Finding {
 	if qlen != 0 {
 		fs = append(fs, explore.Finding{Key: "queue-not-empty", Msg: fmt.Sprintf("%d packets parked in the write queue at quiescence;%s", qlen, ctxs)})
 	}
-	if running != 0 && running != -1 {
+	if running != o.Idle0 {
 		fs = append(fs, explore.Finding{Key: "sender-flag-stuck", Msg: "the sender ownership flag is still set at quiescence (no sender is running);" + ctxs})
 	}
 	return fs
